@@ -23,6 +23,35 @@ Lemma route_out st i s p x payload st' out :
   st_groups st' = st_groups st /\ st_gstore st' = st_gstore st /\ st_next_id st' = st_next_id st.
 Proof. rewrite route_spec. intro H. injection H as <- <-. cbn. repeat split. Qed.
 
+Lemma route_existing_none st i s p x payload :
+  group_sender s p = None -> route_existing st i s p x payload = route st i s p x payload.
+Proof. intro H. unfold route_existing. rewrite H. reflexivity. Qed.
+
+(** the existing-session path: either [post_recv] ran, or a group data message
+    was refused by its sender's entry in the group counter store *)
+Lemma route_existing_out st i s p x payload st' out :
+  route_existing st i s p x payload = (st', out) ->
+  o_plain out = p /\ o_proto out = x /\ o_payload out = payload /\
+  st_groups st' = st_groups st /\
+  ( (o_verdict out = Routed i (snd (sess_post_recv s p x)) /\
+     st_sessions st' = set_nth (st_sessions st) i (fst (sess_post_recv s p x)) /\
+     (group_sender s p = None -> st_gstore st' = st_gstore st))
+    \/
+    (o_verdict out = RejGroupDup /\ st_sessions st' = st_sessions st /\
+     exists fab src, group_sender s p = Some (fab, src) /\
+                     snd (g_post_recv (st_gstore st) fab src (p_ctr p)) = false) ).
+Proof.
+  unfold route_existing. destruct (group_sender s p) as [[fab src]|] eqn:Hg.
+  - destruct (g_post_recv (st_gstore st) fab src (p_ctr p)) as [gs fresh] eqn:Hp.
+    destruct fresh.
+    + intro H. apply route_out in H as (Hv & H1 & H2 & H3 & Hss & Hgr & _).
+      repeat split; try assumption. left. repeat split; try assumption. discriminate.
+    + intro H. injection H as <- <-. cbn. repeat split. right. repeat split.
+      exists fab, src. split; [reflexivity|]. rewrite Hp. reflexivity.
+  - intro H. apply route_out in H as (Hv & H1 & H2 & H3 & Hss & Hgr & Hgs & _).
+    repeat split; try assumption. left. repeat split; try assumption. intros _. exact Hgs.
+Qed.
+
 (** the group path: where it ends when the message is authentic *)
 Lemma group_rx_routed W o st from p aad rest src c x payload st' out i r :
   plain_get_src p = Some src ->
@@ -122,7 +151,9 @@ Proof.
   - destruct (decode_auth_none W o st from wire Ha) as [_ Hn]. rewrite Hd in Hn. cbn [snd] in Hn.
     exfalso. exact (Hn i r Hv).
   - destruct (decode_auth_session W o st from wire j p x payload Ha) as (s & Hf & Hr).
-    rewrite Hr in Hd. apply route_out in Hd as (Hv' & Hp & Hx & Hpl & _).
+    rewrite Hr in Hd.
+    apply route_existing_out in Hd as (Hp & Hx & Hpl & _ & [(Hv' & _)|(Hv' & _)]);
+      [|rewrite Hv' in Hv; discriminate].
     rewrite Hv' in Hv. injection Hv as <- _.
     destruct (auth_session_sound W st from wire j p x payload Hb Ha)
       as (s1 & rest & Hf1 & _ & Hw & Hwf & pt & x0 & Hpd & Hxa & Hau).
@@ -209,7 +240,9 @@ Proof.
   destruct (auth_check W st from wire) as [|j p x payload|p x payload|c p x payload] eqn:Ha.
   - destruct (unauthentic_frame W o st from wire st' out Ha Hd) as [-> _]. reflexivity.
   - destruct (decode_auth_session W o st from wire j p x payload Ha) as (s & Hf & Hr).
-    rewrite Hr in Hd. apply route_out in Hd as (Hv & _). exfalso. exact (Hn _ _ Hv).
+    rewrite Hr in Hd.
+    apply route_existing_out in Hd as (_ & _ & _ & _ & [(Hv & _)|(_ & Hss & _)]);
+      [exfalso; exact (Hn _ _ Hv)|exact Hss].
   - destruct (decode_auth_newplain W o st from wire p x payload Ha) as (Hf & He & Hr).
     rewrite Hr in Hd.
     destruct (sessions_add st (or_rand o) false from (plain_get_src p)) as [st1 slot] eqn:Hadd.
@@ -270,16 +303,19 @@ Theorem routed_frame W o st from wire st' out i r s :
   (forall j, j <> i -> nth_error (st_sessions st') j = nth_error (st_sessions st) j) /\
   (exists s', nth_error (st_sessions st') i = Some s' /\ same_ident s s') /\
   length (st_sessions st') = length (st_sessions st) /\
-  st_groups st' = st_groups st /\ st_gstore st' = st_gstore st.
+  st_groups st' = st_groups st /\
+  (group_sender s (o_plain out) = None -> st_gstore st' = st_gstore st).
 Proof.
   intros Hd Hv Hf.
   destruct (auth_check W st from wire) as [|j p x payload|p x payload|c p x payload] eqn:Ha.
   - destruct (unauthentic_frame W o st from wire st' out Ha Hd) as [_ Hn].
     exfalso. exact (Hn _ _ Hv).
   - destruct (decode_auth_session W o st from wire j p x payload Ha) as (s1 & Hf1 & Hr).
-    rewrite Hr in Hd. apply route_out in Hd as (Hv' & Hp & _ & _ & Hss & Hg & Hgs & _).
+    rewrite Hr in Hd.
+    apply route_existing_out in Hd as (Hp & _ & _ & Hg & [(Hv' & Hss & Hgs)|(Hv' & _)]);
+      [|rewrite Hv' in Hv; discriminate].
     rewrite Hv' in Hv. injection Hv as <- _. rewrite Hp in Hf. rewrite Hf in Hf1.
-    injection Hf1 as <-. apply find_sess_some in Hf as (Hn & _).
+    injection Hf1 as <-. apply find_sess_some in Hf as (Hn & _). rewrite Hp.
     repeat split; try assumption.
     + intros k Hk. rewrite Hss. apply nth_error_set_nth_neq. congruence.
     + eexists. split.
@@ -307,17 +343,21 @@ Theorem replay_frame W o st from wire st' out i r s :
   decode_packet W o st from wire = (st', out) ->
   o_verdict out = Routed i r ->
   find_sess (st_sessions st) from (o_plain out) = Some (i, s) ->
+  group_sender s (o_plain out) = None ->
   snd (post_recv (ps_win s) (p_ctr (o_plain out)) (mode_enc (ps_mode s)) false) = false ->
   st' = st /\ r = Err ERR_DUPLICATE.
 Proof.
-  intros Hd Hv Hf Hw.
+  intros Hd Hv Hf Hgs Hw.
   destruct (auth_check W st from wire) as [|j p x payload|p x payload|c p x payload] eqn:Ha.
   - destruct (unauthentic_frame W o st from wire st' out Ha Hd) as [_ Hn].
     exfalso. exact (Hn _ _ Hv).
   - destruct (decode_auth_session W o st from wire j p x payload Ha) as (s1 & Hf1 & Hr).
-    rewrite Hr in Hd. rewrite route_spec in Hd. injection Hd as <- <-.
+    assert (Hpo : o_plain out = p).
+    { rewrite Hr in Hd. apply route_existing_out in Hd as (Hp & _). exact Hp. }
+    rewrite Hpo in Hf, Hgs, Hw. rewrite Hf in Hf1. injection Hf1 as Hs1. subst s1.
+    rewrite Hr in Hd. rewrite (route_existing_none _ _ _ _ _ _ Hgs) in Hd.
+    rewrite route_spec in Hd. injection Hd as <- <-.
     cbn [o_verdict o_plain] in *. injection Hv as <- <-.
-    rewrite Hf in Hf1. injection Hf1 as <-.
     rewrite (sess_post_recv_replay s p x Hw). cbn [fst snd]. split; [|reflexivity].
     apply find_sess_some in Hf as (Hn & _).
     rewrite (set_nth_same _ _ _ Hn). destruct st; reflexivity.
@@ -493,7 +533,7 @@ Theorem encode_decode_roundtrip W o s stB from i r p x payload wire :
   session_encode W s p x payload = Ok wire ->
   find_sess (st_sessions stB) from p = Some (i, r) ->
   decode_packet W o stB from wire =
-    route stB i r p (adjust_rel (addr_reliable (ps_addr r)) x) payload.
+    route_existing stB i r p (adjust_rel (addr_reliable (ps_addr r)) x) payload.
 Proof.
   intros Hfun Hp Hx Hms Hmr Hk Hn He Hf.
   unfold session_encode, sess_enc_key in He. rewrite Hms in He.
@@ -514,7 +554,7 @@ Theorem plain_encode_decode_roundtrip W o s stB from i r p x payload wire :
   session_encode W s p x payload = Ok wire ->
   find_sess (st_sessions stB) from p = Some (i, r) ->
   decode_packet W o stB from wire =
-    route stB i r p (adjust_rel (addr_reliable (ps_addr r)) x) payload.
+    route_existing stB i r p (adjust_rel (addr_reliable (ps_addr r)) x) payload.
 Proof.
   intros Hp Hx Hms Hmr He Hf.
   unfold session_encode, sess_enc_key in He. rewrite Hms in He.
@@ -567,9 +607,11 @@ Proof.
   unfold is_for_rx. cbn [p_sess p_flags p_sec p_src p_dst].
   change (plain_get_src (mkPlain 0 (ps_peer_sid s) 0 ctr 0 0)) with (@None N).
   change (plain_get_dst_unicast (mkPlain 0 (ps_peer_sid s) 0 ctr 0 0)) with (@None N).
-  rewrite Hmr, Ha, Hres, Hsid, N.eqb_refl.
+  change (plain_get_dst_groupcast (mkPlain 0 (ps_peer_sid s) 0 ctr 0 0)) with (@None N).
+  rewrite Ha, Hres, Hsid, N.eqb_refl.
   unfold plain_encrypted, plain_group. cbn [p_sess p_sec].
-  apply N.eqb_neq in Hnz. rewrite Hnz. cbn. rewrite orb_true_r. reflexivity.
+  apply N.eqb_neq in Hnz. rewrite Hnz.
+  destruct (ps_mode r); try discriminate Hmr; cbn; rewrite ?orb_true_r; reflexivity.
 Qed.
 
 (** What [write_packet] (= [pre_send] then [encode]) of one end of a secure
@@ -585,7 +627,7 @@ Theorem roundtrip W o s gctr sai x payload s' p x' wire stB from i r :
   pre_send s None gctr sai x = (s', Ok (p, x')) ->
   session_encode W s' p x' payload = Ok wire ->
   decode_packet W o stB from wire =
-    route stB i r p (adjust_rel (addr_reliable (ps_addr r)) x') payload.
+    route_existing stB i r p (adjust_rel (addr_reliable (ps_addr r)) x') payload.
 Proof.
   intros Hfun (Hln & Hps & Hls & Hctr & Hpn) Hxwf Hmir Hn Hfirst Hpre Henc.
   pose proof Hmir as (Hu & Hmr & Hk & Hsid & Hnz & Hnode & Ha & Hres).
@@ -695,4 +737,25 @@ Proof.
   rewrite Hc. cbn [group_try]. unfold decode_remaining. rewrite Hk.
   rewrite (aead_open_complete W _ _ _ _ _ Hfun Hs).
   rewrite proto_roundtrip by exact Hx. reflexivity.
+Qed.
+
+(** * Group data messages on their sender's ephemeral session (repair 6198879) *)
+
+(** a group data message whose counter the sender's entry in the group counter
+    store refuses is a [Duplicate] although a session of that sender lives, and
+    no session moves *)
+Theorem group_replay_rejected W o st from wire i p x payload s fab src :
+  auth_check W st from wire = AuthSession i p x payload ->
+  find_sess (st_sessions st) from p = Some (i, s) ->
+  group_sender s p = Some (fab, src) ->
+  snd (g_post_recv (st_gstore st) fab src (p_ctr p)) = false ->
+  o_verdict (snd (decode_packet W o st from wire)) = RejGroupDup /\
+  st_sessions (fst (decode_packet W o st from wire)) = st_sessions st.
+Proof.
+  intros Ha Hf Hg Hs.
+  destruct (decode_auth_session W o st from wire i p x payload Ha) as (s1 & Hf1 & Hr).
+  rewrite Hf in Hf1. injection Hf1 as <-. rewrite Hr.
+  unfold route_existing. rewrite Hg.
+  destruct (g_post_recv (st_gstore st) fab src (p_ctr p)) as [gs fresh]. cbn [snd] in Hs. subst fresh.
+  cbn. split; reflexivity.
 Qed.
